@@ -1,8 +1,8 @@
 (* C08 - the property theorems, nothing else.  Each is closed by [exact] of a lemma proved in
-   Tp/TpProofs.v, Tp/TpOracleProofs.v or Tp/TpCalProofs.v and followed by Print Assumptions.
+   Tp/*.v and followed by Print Assumptions.
    The model is the transcription of the tree WITH repo_patches/C08-remove-segment-boundaries.diff
    (tp_fixed = true); tp_fixed = false is the pinned tree and is used only by C08_remove_refuted. *)
-From Icv Require Import Base.Tac Tp.TpModel Tp.TpProofs Tp.TpObs Tp.TpOracleProofs Tp.TpCal Tp.TpCivil Tp.TpCalObs Tp.TpCalProofs Tp.TpDst Tp.TpTab Tp.TpNth.
+From Icv Require Import Base.Tac Tp.TpModel Tp.TpProofs Tp.TpObs Tp.TpOracleProofs Tp.TpCal Tp.TpCivil Tp.TpCalObs Tp.TpCalProofs Tp.TpDst Tp.TpTab Tp.TpNth Tp.TpNorm Tp.TpParse Tp.TpParseProofs.
 Local Open Scope Z_scope.
 
 (* ---------------- M1: interval algebra, all segment lists, all instants ---------------- *)
@@ -65,38 +65,62 @@ Theorem C08_oracle_accepts_model : forall probes ops,
 Proof. exact tp_oracle_accepts_model. Qed.
 Print Assumptions C08_oracle_accepts_model.
 
-(* ---------------- M2: calendar ---------------- *)
+(* ---------------- M2: calendar ----------------
+   The model follows the source in two places, read from the regenerated facts Facts/Facts_c08.v:
+     rnd  (tp_src_stride_round)  the day number of a stride in IsInTimeRange: false = (tsref - tsbegin) / 86400 (pinned,
+          finding stride-dst), true = rounded to the nearest day (repo_patches/C08-stride-dst.diff);
+     lb   (tp_src_lookback)      the day loop of ScriptFunc: false = from the region's first local day (pinned, finding
+          wrap-first-day), true = from the day before, keeping what ends after the region's begin
+          (repo_patches/C08-wrap-first-day.diff).
+   The theorems are stated for both forms (rnd, lb universally quantified); C08_ranges_current_source is the instance
+   for the source as it is, C08_ranges_repaired the one with both repairs, which has no finding hypothesis left. *)
+
+(* both forms were recognised in the source (stops compiling when IsInTimeRange / the day loop change shape) *)
+Theorem C08_source_forms_recognised :
+  Facts.Facts_c08.f_tp_stride_round <> None /\ Facts.Facts_c08.f_tp_loop_lookback <> None.
+Proof. split; discriminate. Qed.
+Print Assumptions C08_source_forms_recognised.
 
 (* any local time (off, mk arbitrary - also across DST): the produced segments are exactly the mktime
-   images of the time ranges of the days the loop visits and IsInDayDefinition accepts.  (What that means in
+   images of the time ranges of the days the loop visits and IsInDayDefinition accepts (in form lb: as far as instants
+   from the region's begin on are concerned - what ended before it is not reported).  (What that means in
    wall-clock terms on transition days: C08_ranges / C08_dst / C08_day_loop below.) *)
-Theorem C08_segments_general : forall mk off ranges b e t,
-  tp_inside_segs (tp_script_func off mk ranges b e) t =
-  existsb (fun d => existsb (fun kv => tp_in_day_def mk (fst kv) d &&
+Theorem C08_segments_general : forall mk rnd lb off ranges b e t,
+  lb = false \/ b <= t ->
+  tp_inside_segs (tp_script_func off mk rnd lb ranges b e) t =
+  existsb (fun d => existsb (fun kv => tp_in_day_def mk rnd (fst kv) d &&
                                        existsb (fun tr => tp_in_time_range_mk mk d tr t) (snd kv)) ranges)
-          (tp_loop_days mk (tp_loop_fuel b e) (tp_local_day off b) e).
+          (tp_loop_days mk (tp_loop_fuel b e) (tp_first_day off lb b) e).
 Proof. exact tp_script_func_general. Qed.
 Print Assumptions C08_segments_general.
 
-(* fixed UTC offset c (no transition in reach): inside the window an instant is in a produced segment iff
+(* fixed UTC offset c (no transition in reach), either form: inside the window an instant is in a produced segment iff
    its local day, or one of the three days before, matches a day definition (calendar-day stride) one of
    whose time ranges (24:00 end, wrap past midnight, >24 h) contains its wall-clock time -
-   provided no range of a day BEFORE the window's first local day reaches it (negated signature of
-   F-C08-b, see C08_wrap_refuted). *)
-Theorem C08_ranges_fixed_offset_partial : forall c ranges b e t,
+   provided no range of a day BEFORE the loop's first day reaches it (pinned loop: the negated signature of
+   F-C08-b, see C08_wrap_refuted; loop started a day early: see C08_ranges_fixed_offset_lookback). *)
+Theorem C08_ranges_fixed_offset_partial : forall c rnd lb ranges b e t,
   b <= t < e -> tp_ranges_bounded ranges ->
-  (forall d, d < tp_local_day (fun _ => c) b ->
+  (forall d, d < tp_first_day (fun _ => c) lb b ->
              tp_day_covers (fun _ => c) (fun l => l - c) false ranges d t = false) ->
-  tp_inside_segs (tp_script_func (fun _ => c) (fun l => l - c) ranges b e) t =
+  tp_inside_segs (tp_script_func (fun _ => c) (fun l => l - c) rnd lb ranges b e) t =
   tp_spec_inside (fun _ => c) (fun l => l - c) false None tp_back ranges t.
 Proof. exact tp_ranges_fixed_offset. Qed.
 Print Assumptions C08_ranges_fixed_offset_partial.
 
-(* ... and without that hypothesis: the statement restricted to days from the window's first local day on *)
-Theorem C08_ranges_from_first_day : forall c ranges b e t,
+(* ... with the loop started a day early the hypothesis is gone for ranges ending at most 48 h after 00:00 of their day *)
+Theorem C08_ranges_fixed_offset_lookback : forall c rnd ranges b e t,
+  b <= t < e -> tp_ranges_bounded ranges -> tp_ranges_reach1 ranges ->
+  tp_inside_segs (tp_script_func (fun _ => c) (fun l => l - c) rnd true ranges b e) t =
+  tp_spec_inside (fun _ => c) (fun l => l - c) false None tp_back ranges t.
+Proof. intros c rnd ranges b e t. exact (tp_ranges_fixed_offset_lookback c rnd true ranges b e t eq_refl). Qed.
+Print Assumptions C08_ranges_fixed_offset_lookback.
+
+(* ... and without any such hypothesis: the statement restricted to days from the loop's first day on *)
+Theorem C08_ranges_from_first_day : forall c rnd lb ranges b e t,
   b <= t < e -> tp_ranges_bounded ranges ->
-  tp_inside_segs (tp_script_func (fun _ => c) (fun l => l - c) ranges b e) t =
-  tp_spec_inside (fun _ => c) (fun l => l - c) false (Some (tp_local_day (fun _ => c) b)) tp_back ranges t.
+  tp_inside_segs (tp_script_func (fun _ => c) (fun l => l - c) rnd lb ranges b e) t =
+  tp_spec_inside (fun _ => c) (fun l => l - c) false (Some (tp_first_day (fun _ => c) lb b)) tp_back ranges t.
 Proof. exact tp_script_func_const. Qed.
 Print Assumptions C08_ranges_from_first_day.
 
@@ -110,14 +134,15 @@ Proof. exact tp_spec_inside_iff. Qed.
 Print Assumptions C08_spec_meaning.
 
 (* the calendar oracle run over implementation traces accepts what the model computes for a zone without
-   transitions, outside the recorded finding F-C08-b (hypothesis = its negated signature at every probe) *)
-Theorem C08_calendar_oracle_accepts_model_partial : forall c ranges prefer incs excs b e clear probes pre,
+   transitions, in either form, outside what is left of F-C08-b (no range of a day before the loop's first day reaches
+   a probe) *)
+Theorem C08_calendar_oracle_accepts_model_partial : forall c rnd lb ranges prefer incs excs b e clear probes pre,
   tp_ranges_bounded ranges ->
   let off := fun _ : Z => c in
   let mk := fun l : Z => l - c in
-  let post := tp_update_region true (tp_script_func off mk ranges) prefer incs excs b e clear pre in
+  let post := tp_update_region true (tp_script_func off mk rnd lb ranges) prefer incs excs b e clear pre in
   (forall t d, In t probes -> tp_upd_begin b clear pre <= t < e ->
-               d < tp_local_day off (tp_upd_begin b clear pre) -> tp_day_covers off mk false ranges d t = false) ->
+               d < tp_first_day off lb (tp_upd_begin b clear pre) -> tp_day_covers off mk false ranges d t = false) ->
   tp_cal_step_ok c [] ranges prefer incs excs b e clear probes pre post (map (tp_is_inside post) probes) = None.
 Proof. exact tp_cal_step_ok_model_const. Qed.
 Print Assumptions C08_calendar_oracle_accepts_model_partial.
@@ -138,78 +163,128 @@ Theorem C08_local_time_key : forall off,
 Proof. exact tp_key. Qed.
 Print Assumptions C08_local_time_key.
 
-(* (2) the day loop of ScriptFunc(begin, end) visits exactly the local calendar days that meet [begin, end] *)
+(* (2) the day loop of ScriptFunc(begin, end) visits exactly the local calendar days that meet [begin, end] - and, when
+   it is started a day early (lb), the local day before begin's *)
 Theorem C08_day_loop : forall off,
   (forall t, -86400 < off t < 86400) ->
   (forall s1 s2, s1 < s2 -> off (s1 - 1) <> off s1 -> off (s2 - 1) <> off s2 -> s1 + 172800 <= s2) ->
-  forall mk b e r, b <= e ->
+  forall mk lb b e r, b <= e ->
   tp_good off mk (tp_local_day off b * 86400) ->
-  (forall d, tp_local_day off b <= d <= tp_local_day off e + 1 -> tp_good off mk (d * 86400)) ->
-  (In r (tp_loop_days mk (tp_loop_fuel b e) (tp_local_day off b) e) <->
-   exists t, b <= t <= e /\ tp_local_day off t = r).
+  (forall d, tp_first_day off lb b <= d <= tp_local_day off e + 1 -> tp_good off mk (d * 86400)) ->
+  (In r (tp_loop_days mk (tp_loop_fuel b e) (tp_first_day off lb b) e) <->
+   (lb = true /\ r = tp_local_day off b - 1) \/ exists t, b <= t <= e /\ tp_local_day off t = r).
 Proof. exact tp_day_loop_days. Qed.
 Print Assumptions C08_day_loop.
 
-(* (1) C08_ranges for any such local time: for every instant t of the window (to the second, all instants of
-   transition days included) t lies in a produced segment iff its local calendar day, or one of the three
-   before (ranges running past midnight), matches a day definition one of whose time ranges contains its
-   wall-clock time.  Visible hypotheses: the boundaries exist exactly once (the property's restriction), and
-   the negated signatures of F-C08-c (stride counted in seconds = calendar stride) and F-C08-b (no range of a
-   day before the window's first local day reaches t). *)
+(* (1) C08_ranges for any such local time and either form of the source: for every instant t of the window (to the
+   second, all instants of transition days included) t lies in a produced segment iff its local calendar day, or one of
+   the three before (ranges running past midnight), matches a day definition one of whose time ranges contains its
+   wall-clock time.  Visible hypotheses: the boundaries exist exactly once (the property's restriction);
+   for the stride, pinned day number: seconds/86400 = calendar distance (negated signature of F-C08-c), rounded day
+   number: the zone's offsets differ by less than 12 h; and no range of a day before the loop's first day reaches t
+   (pinned loop: negated signature of F-C08-b; loop started a day early: C08_ranges_lookback). *)
 Theorem C08_ranges : forall off,
   (forall t, -86400 < off t < 86400) ->
   (forall s1 s2, s1 < s2 -> off (s1 - 1) <> off s1 -> off (s2 - 1) <> off s2 -> s1 + 172800 <= s2) ->
-  forall mk ranges b e t,
+  forall mk (rnd lb : bool) ranges b e t,
   b <= t <= e -> tp_ranges_bounded ranges ->
-  (forall L, In L (tp_needed_list off ranges b e) -> tp_good off mk L) ->
-  (forall d kv, tp_local_day off b <= d <= tp_local_day off e -> In kv ranges ->
-                tp_day_matches_secs mk (fst kv) d = tp_day_matches (fst kv) d) ->
-  (forall d, d < tp_local_day off b -> tp_day_covers off mk false ranges d t = false) ->
-  tp_inside_segs (tp_script_func off mk ranges b e) t = tp_spec_inside off mk false None tp_back ranges t.
+  (forall L, In L (tp_needed_list off lb ranges b e) -> tp_good off mk L) ->
+  tp_good off mk (tp_local_day off b * 86400) ->
+  (if rnd then forall t t', off t - off t' < 43200
+   else forall d kv, tp_first_day off lb b <= d <= tp_local_day off e -> In kv ranges ->
+                     tp_day_matches_secs mk (fst kv) d = tp_day_matches (fst kv) d) ->
+  (forall d, d < tp_first_day off lb b -> tp_day_covers off mk false ranges d t = false) ->
+  tp_inside_segs (tp_script_func off mk rnd lb ranges b e) t = tp_spec_inside off mk false None tp_back ranges t.
 Proof. exact tp_ranges_dst. Qed.
 Print Assumptions C08_ranges.
 
+(* ... the loop started a day early: nothing of F-C08-b is left for ranges that end at most 48 h after 00:00 of their day *)
+Theorem C08_ranges_lookback : forall off,
+  (forall t, -86400 < off t < 86400) ->
+  (forall s1 s2, s1 < s2 -> off (s1 - 1) <> off s1 -> off (s2 - 1) <> off s2 -> s1 + 172800 <= s2) ->
+  forall mk (rnd : bool) ranges b e t,
+  b <= t <= e -> tp_ranges_bounded ranges -> tp_ranges_reach1 ranges ->
+  (forall L, In L (tp_needed_list off true ranges b e) -> tp_good off mk L) ->
+  tp_good off mk (tp_local_day off b * 86400) ->
+  (if rnd then forall t t', off t - off t' < 43200
+   else forall d kv, tp_first_day off true b <= d <= tp_local_day off e -> In kv ranges ->
+                     tp_day_matches_secs mk (fst kv) d = tp_day_matches (fst kv) d) ->
+  tp_inside_segs (tp_script_func off mk rnd true ranges b e) t = tp_spec_inside off mk false None tp_back ranges t.
+Proof. intros off Hb Hs mk rnd ranges b e t. exact (tp_ranges_lookback_dst off Hb Hs mk rnd true ranges b e t eq_refl). Qed.
+Print Assumptions C08_ranges_lookback.
+
 (* ... the same with mktime DEFINED as the unique instant (searched in (L - 24 h, L + 24 h)) *)
-Theorem C08_dst : forall off ranges b e t,
+Theorem C08_dst : forall off (rnd lb : bool) ranges b e t,
   (forall t, -86400 < off t < 86400) ->
   (forall s1 s2, s1 < s2 -> off (s1 - 1) <> off s1 -> off (s2 - 1) <> off s2 -> s1 + 172800 <= s2) ->
   b <= t <= e -> tp_ranges_bounded ranges ->
-  (forall L, In L (tp_needed_list off ranges b e) -> tp_once off L) ->
-  (forall d kv, tp_local_day off b <= d <= tp_local_day off e -> In kv ranges ->
-                tp_day_matches_secs (tp_mk_def off) (fst kv) d = tp_day_matches (fst kv) d) ->
-  (forall d, d < tp_local_day off b -> tp_day_covers off (tp_mk_def off) false ranges d t = false) ->
-  tp_inside_segs (tp_script_func off (tp_mk_def off) ranges b e) t =
+  (forall L, In L (tp_needed_list off lb ranges b e) -> tp_once off L) ->
+  tp_once off (tp_local_day off b * 86400) ->
+  (if rnd then forall t t', off t - off t' < 43200
+   else forall d kv, tp_first_day off lb b <= d <= tp_local_day off e -> In kv ranges ->
+                     tp_day_matches_secs (tp_mk_def off) (fst kv) d = tp_day_matches (fst kv) d) ->
+  (forall d, d < tp_first_day off lb b -> tp_day_covers off (tp_mk_def off) false ranges d t = false) ->
+  tp_inside_segs (tp_script_func off (tp_mk_def off) rnd lb ranges b e) t =
   tp_spec_inside off (tp_mk_def off) false None tp_back ranges t.
 Proof. exact tp_ranges_dst_mk_def. Qed.
 Print Assumptions C08_dst.
 
-(* ... without the two finding hypotheses: the statement with the stride in seconds and days from the window's
-   first local day on - exactly what the two recorded findings leave *)
+(* ... without the finding hypotheses: the statement with the stride as the form at hand counts it (pinned: seconds,
+   rounded: calendar days) and days from the loop's first day on - exactly what the recorded findings leave *)
 Theorem C08_ranges_as_implemented : forall off,
   (forall t, -86400 < off t < 86400) ->
   (forall s1 s2, s1 < s2 -> off (s1 - 1) <> off s1 -> off (s2 - 1) <> off s2 -> s1 + 172800 <= s2) ->
-  forall mk ranges b e t,
+  forall mk rnd lb ranges b e t,
   b <= t <= e -> tp_ranges_bounded ranges ->
-  (forall L, In L (tp_needed_list off ranges b e) -> tp_good off mk L) ->
-  tp_inside_segs (tp_script_func off mk ranges b e) t =
-  tp_spec_inside off mk true (Some (tp_local_day off b)) tp_back ranges t.
+  (forall L, In L (tp_needed_list off lb ranges b e) -> tp_good off mk L) ->
+  tp_good off mk (tp_local_day off b * 86400) ->
+  (rnd = true -> forall t t', off t - off t' < 43200) ->
+  tp_inside_segs (tp_script_func off mk rnd lb ranges b e) t =
+  tp_spec_inside off mk (negb rnd) (Some (tp_first_day off lb b)) tp_back ranges t.
 Proof. exact tp_script_func_dst. Qed.
 Print Assumptions C08_ranges_as_implemented.
 
 (* the executable tables: every premise about local time is a boolean the oracle COMPUTES per case
-   (tp_cal_hyps_ok = table ascending, transitions >= 2 days apart, |offset| < 24 h, and every needed local
-   time exists exactly once with tp_tab_mk returning its instant) *)
-Theorem C08_ranges_table : forall base tab ranges b e t,
-  tp_cal_hyps_ok base tab ranges b e = true ->
+   (tp_cal_hyps_ok = table ascending, transitions >= 2 days apart, |offset| < 24 h, every needed local
+   time exists exactly once with tp_tab_mk returning its instant and, for the rounded day number, the table's offsets
+   differ by less than 12 h) *)
+Theorem C08_ranges_table : forall rnd lb base tab ranges b e t,
+  tp_cal_hyps_ok rnd lb base tab ranges b e = true ->
   b <= t <= e -> tp_ranges_bounded ranges ->
-  (forall d kv, tp_local_day (tp_tab_off base tab) b <= d <= tp_local_day (tp_tab_off base tab) e -> In kv ranges ->
+  (rnd = false -> forall d kv, tp_first_day (tp_tab_off base tab) lb b <= d <= tp_local_day (tp_tab_off base tab) e -> In kv ranges ->
                 tp_day_matches_secs (tp_tab_mk base tab) (fst kv) d = tp_day_matches (fst kv) d) ->
-  (forall d, d < tp_local_day (tp_tab_off base tab) b ->
+  (forall d, d < tp_first_day (tp_tab_off base tab) lb b ->
              tp_day_covers (tp_tab_off base tab) (tp_tab_mk base tab) false ranges d t = false) ->
-  tp_inside_segs (tp_script_func (tp_tab_off base tab) (tp_tab_mk base tab) ranges b e) t =
+  tp_inside_segs (tp_script_func (tp_tab_off base tab) (tp_tab_mk base tab) rnd lb ranges b e) t =
   tp_spec_inside (tp_tab_off base tab) (tp_tab_mk base tab) false None tp_back ranges t.
 Proof. exact tp_ranges_table. Qed.
 Print Assumptions C08_ranges_table.
+
+(* THE SOURCE WITH BOTH REPAIRS: for ranges that end at most 48 h after 00:00 of their day (24:00 ends, ranges wrapping
+   past midnight) the computed hypotheses are all that is asked; no finding's signature is left *)
+Theorem C08_ranges_repaired : forall base tab ranges b e t,
+  tp_cal_hyps_ok true true base tab ranges b e = true ->
+  b <= t <= e -> tp_ranges_bounded ranges -> tp_ranges_reach1 ranges ->
+  tp_inside_segs (tp_script_func (tp_tab_off base tab) (tp_tab_mk base tab) true true ranges b e) t =
+  tp_spec_inside (tp_tab_off base tab) (tp_tab_mk base tab) false None tp_back ranges t.
+Proof. exact tp_ranges_table_repaired. Qed.
+Print Assumptions C08_ranges_repaired.
+
+(* THE SOURCE AS IT IS NOW (forms read from the regenerated facts): per repair either the negated signature of the
+   finding (pinned form) or the condition under which the repaired form is exact *)
+Theorem C08_ranges_current_source : forall base tab ranges b e t,
+  tp_cal_hyps_ok tp_src_stride_round tp_src_lookback base tab ranges b e = true ->
+  b <= t <= e -> tp_ranges_bounded ranges ->
+  (tp_src_stride_round = false ->
+     forall d kv, tp_first_day (tp_tab_off base tab) tp_src_lookback b <= d <= tp_local_day (tp_tab_off base tab) e -> In kv ranges ->
+                  tp_day_matches_secs (tp_tab_mk base tab) (fst kv) d = tp_day_matches (fst kv) d) ->
+  (if tp_src_lookback then tp_ranges_reach1 ranges
+   else forall d, d < tp_local_day (tp_tab_off base tab) b ->
+                  tp_day_covers (tp_tab_off base tab) (tp_tab_mk base tab) false ranges d t = false) ->
+  tp_inside_segs (tp_script_func (tp_tab_off base tab) (tp_tab_mk base tab) tp_src_stride_round tp_src_lookback ranges b e) t =
+  tp_spec_inside (tp_tab_off base tab) (tp_tab_mk base tab) false None tp_back ranges t.
+Proof. exact (tp_ranges_table_form tp_src_stride_round tp_src_lookback). Qed.
+Print Assumptions C08_ranges_current_source.
 
 Theorem C08_table_hypotheses : forall base tab,
   tp_tab_ok base tab = true ->
@@ -231,6 +306,31 @@ Theorem C08_stride_no_transition : forall off,
   tp_day_matches_secs mk dd r = tp_day_matches dd r.
 Proof. exact tp_stride_same_offset. Qed.
 Print Assumptions C08_stride_no_transition.
+
+(* (3) the day number rounded to the nearest day (rnd = true) makes IsInDayDefinition the calendar statement across
+   every transition - spring forward, fall back, 30-minute shifts - as long as the offsets at the two midnights differ
+   by less than 12 h ... *)
+Theorem C08_stride_rounded : forall off,
+  (forall t, -86400 < off t < 86400) ->
+  (forall s1 s2, s1 < s2 -> off (s1 - 1) <> off s1 -> off (s2 - 1) <> off s2 -> s1 + 172800 <= s2) ->
+  forall mk dd r,
+  tp_good off mk (r * 86400) -> tp_good off mk (tp_range_begin_day dd r * 86400) -> tp_good off mk (tp_range_end_day dd r * 86400) ->
+  -43200 < off (tp_midnight mk r) - off (tp_midnight mk (tp_range_begin_day dd r)) < 43200 ->
+  tp_in_day_def mk true dd r = tp_day_matches dd r.
+Proof. exact tp_in_day_def_round. Qed.
+Print Assumptions C08_stride_rounded.
+
+(* ... and that condition cannot be dropped: a (synthetic) zone that jumps by 13 h *)
+Theorem C08_stride_rounded_limit :
+  let base := 0 in
+  let tab := [(tp_days_from_civil 2034 3 26 * 86400 + 10800, 46800)] in
+  let dd := {| tp_dr_first := TpDate 2034 3 25; tp_dr_last := Some (TpDate 2034 3 31); tp_dr_stride := 2 |} in
+  let r := tp_days_from_civil 2034 3 27 in
+  tp_tab_ok base tab = true /\ tp_tab_span_ok base tab = false /\
+  forallb (tp_tab_good_b base tab) [r * 86400; tp_range_begin_day dd r * 86400; tp_range_end_day dd r * 86400] = true /\
+  tp_day_matches dd r = true /\ tp_in_day_def (tp_tab_mk base tab) true dd r = false.
+Proof. exact tp_stride_round_span_needed. Qed.
+Print Assumptions C08_stride_rounded_limit.
 
 (* (3) n-th weekday: the closed form used by the model has the weekday and lies in the n-th block of seven
    days from the first (n > 0) / from the last (n < 0) day of the month ... *)
@@ -256,13 +356,41 @@ Proof.
 Qed.
 Print Assumptions C08_nth_weekday_loop.
 
+(* ... also with mktime's field normalisation in every iteration, as the code runs it (tp_norm_day = the civil day mktime
+   leaves in the struct tm): across transitions too, as long as mktime keeps the civil day of the at most 7 |n| local
+   midnights of the search (it does whenever they exist exactly once: C08_mktime_keeps_day) *)
+Theorem C08_nth_weekday_mktime : forall off mk wd n y m0,
+  0 <= wd <= 6 -> n <> 0 ->
+  let first := tp_days_from_civil y (m0 + 1) 1 in
+  let last := tp_days_from_civil y (m0 + 2) 1 - 1 in
+  (forall d, (if 0 <? n then first <= d < first + 7 * n else last - 7 * (- n) < d <= last) -> tp_norm_day off mk d = d) ->
+  tp_find_nth_weekday_loop_mk off mk (Z.to_nat (7 * Z.abs n)) wd n y m0 = Some (tp_find_nth_weekday wd n y m0).
+Proof. exact tp_find_nth_weekday_mk. Qed.
+Print Assumptions C08_nth_weekday_mktime.
+
+Theorem C08_mktime_keeps_day : forall off mk d, tp_good off mk (d * 86400) -> tp_norm_day off mk d = d.
+Proof. exact tp_norm_day_good. Qed.
+Print Assumptions C08_mktime_keeps_day.
+
+(* the day loop of ScriptFunc as the code runs it - advance_to_next_day lets mktime rewrite the reference in every step,
+   form lb also the first day - produces exactly the segments of the model's civil-day loop, 23 h / 25 h days included *)
+Theorem C08_day_loop_mktime : forall off mk rnd lb,
+  (forall t, -86400 < off t < 86400) ->
+  (forall s1 s2, s1 < s2 -> off (s1 - 1) <> off s1 -> off (s2 - 1) <> off s2 -> s1 + 172800 <= s2) ->
+  forall ranges b e, b <= e ->
+  tp_good off mk (tp_local_day off b * 86400) ->
+  (forall d, tp_first_day off lb b <= d <= tp_local_day off e + 1 -> tp_good off mk (d * 86400)) ->
+  tp_script_func_norm off mk rnd lb ranges b e = tp_script_func off mk rnd lb ranges b e.
+Proof. exact tp_script_func_norm_eq. Qed.
+Print Assumptions C08_day_loop_mktime.
+
 (* known finding nth-weekday-zero-hang: for n = 0 ("monday 0") the loop returns nothing for ANY fuel *)
 Theorem C08_nth_zero_refuted : forall fuel wd y m0, tp_find_nth_weekday_loop fuel wd 0 y m0 = None.
 Proof. exact tp_find_nth_weekday_zero_diverges. Qed.
 Print Assumptions C08_nth_zero_refuted.
 
-(* F-C08-b (known): "friday" = "22:00-06:00", window computed afresh from Saturday 03:00 (Europe/Berlin):
-   Saturday 03:00 is inside by the statement, not by the produced segments *)
+(* F-C08-b (wrap-first-day), pinned loop: "friday" = "22:00-06:00", window computed afresh from Saturday 03:00
+   (Europe/Berlin): Saturday 03:00 is inside by the statement, not by the produced segments *)
 Theorem C08_wrap_refuted :
   let off := tp_tab_off tp_berlin_base tp_berlin_tab in
   let mk := tp_tab_mk tp_berlin_base tp_berlin_tab in
@@ -270,12 +398,25 @@ Theorem C08_wrap_refuted :
   let b := mk (tp_days_from_civil 2033 6 4 * 86400 + 10800) in
   tp_tab_ok tp_berlin_base tp_berlin_tab = true /\
   tp_spec_inside off mk false None tp_back ranges b = true /\
-  tp_inside_segs (tp_script_func off mk ranges b (b + 86400)) b = false /\
+  tp_inside_segs (tp_script_func off mk false false ranges b (b + 86400)) b = false /\
   tp_spec_inside off mk false (Some (tp_local_day off b)) tp_back ranges b = false.
 Proof. exact tp_wrap_refuted. Qed.
 Print Assumptions C08_wrap_refuted.
 
-(* F-C08-c (known): "2034-03-25 - 2034-03-31 / 2" across the spring-forward day 2034-03-26 (Europe/Berlin) *)
+(* ... the same witness with the loop started a day early: [Friday 22:00, Saturday 06:00) is produced, Saturday 03:00 is
+   inside; Friday's other range 08:00-09:00 ended before the region's begin and is not reported *)
+Theorem C08_wrap_fixed :
+  let off := tp_tab_off tp_berlin_base tp_berlin_tab in
+  let mk := tp_tab_mk tp_berlin_base tp_berlin_tab in
+  let ranges := [({| tp_dr_first := TpWeekday 5 None None; tp_dr_last := None; tp_dr_stride := 1 |}, [(28800, 32400); (79200, 21600)])] in
+  let b := mk (tp_days_from_civil 2033 6 4 * 86400 + 10800) in
+  tp_spec_inside off mk false None tp_back ranges b = true /\
+  tp_inside_segs (tp_script_func off mk false true ranges b (b + 86400)) b = true /\
+  tp_script_func off mk false true ranges b (b + 86400) = [(b - 18000, b + 10800)].
+Proof. exact tp_wrap_fixed. Qed.
+Print Assumptions C08_wrap_fixed.
+
+(* F-C08-c (stride-dst), pinned day number: "2034-03-25 - 2034-03-31 / 2" across the spring-forward day 2034-03-26 (Europe/Berlin) *)
 Theorem C08_stride_refuted :
   let off := tp_tab_off tp_berlin_base tp_berlin_tab in
   let mk := tp_tab_mk tp_berlin_base tp_berlin_tab in
@@ -284,13 +425,57 @@ Theorem C08_stride_refuted :
   let noon27 := mk (tp_days_from_civil 2034 3 27 * 86400 + 43200) in
   let noon28 := mk (tp_days_from_civil 2034 3 28 * 86400 + 43200) in
   tp_spec_inside off mk false None tp_back ranges noon27 = true /\
-  tp_inside_segs (tp_script_func off mk ranges b (b + 259200)) noon27 = false /\
+  tp_inside_segs (tp_script_func off mk false false ranges b (b + 259200)) noon27 = false /\
   tp_spec_inside off mk false None tp_back ranges noon28 = false /\
-  tp_inside_segs (tp_script_func off mk ranges b (b + 259200)) noon28 = true /\
+  tp_inside_segs (tp_script_func off mk false false ranges b (b + 259200)) noon28 = true /\
   tp_spec_inside off mk true None tp_back ranges noon27 = false /\
   tp_spec_inside off mk true None tp_back ranges noon28 = true.
 Proof. exact tp_stride_refuted. Qed.
 Print Assumptions C08_stride_refuted.
+
+(* ... the same witness with the rounded day number: the 27th matches, the 28th does not; likewise in autumn
+   ("2034-10-28 - 2034-11-03 / 2" across the fall-back day 2034-10-29): the 30th matches, the 31st does not *)
+Theorem C08_stride_fixed :
+  let off := tp_tab_off tp_berlin_base tp_berlin_tab in
+  let mk := tp_tab_mk tp_berlin_base tp_berlin_tab in
+  let ranges := [({| tp_dr_first := TpDate 2034 3 25; tp_dr_last := Some (TpDate 2034 3 31); tp_dr_stride := 2 |}, [(32400, 61200)])] in
+  let b := mk (tp_days_from_civil 2034 3 26 * 86400 + 43200) in
+  let noon27 := mk (tp_days_from_civil 2034 3 27 * 86400 + 43200) in
+  let noon28 := mk (tp_days_from_civil 2034 3 28 * 86400 + 43200) in
+  let ranges' := [({| tp_dr_first := TpDate 2034 10 28; tp_dr_last := Some (TpDate 2034 11 3); tp_dr_stride := 2 |}, [(32400, 61200)])] in
+  let b' := mk (tp_days_from_civil 2034 10 29 * 86400 + 43200) in
+  let noon30 := mk (tp_days_from_civil 2034 10 30 * 86400 + 43200) in
+  let noon31 := mk (tp_days_from_civil 2034 10 31 * 86400 + 43200) in
+  tp_inside_segs (tp_script_func off mk true false ranges b (b + 259200)) noon27 = true /\
+  tp_inside_segs (tp_script_func off mk true false ranges b (b + 259200)) noon28 = false /\
+  tp_inside_segs (tp_script_func off mk true false ranges' b' (b' + 259200)) noon30 = true /\
+  tp_inside_segs (tp_script_func off mk true false ranges' b' (b' + 259200)) noon31 = false /\
+  tp_spec_inside off mk false None tp_back ranges' noon30 = true /\
+  tp_spec_inside off mk false None tp_back ranges' noon31 = false.
+Proof. exact tp_stride_fixed. Qed.
+Print Assumptions C08_stride_fixed.
+
+(* ---------------- M2: the strings ----------------
+   tp_parse_daydef / tp_parse_timeranges (Tp/TpParse.v) transcribe ParseTimeRange, ParseTimeSpec and ProcessTimeRanges on
+   byte strings (Split without token compression, Trim, Find("- "), boost::lexical_cast<long> incl. sign, range of long
+   and narrowing to int).  vmodel and the oracle get their parsed forms from these functions applied to the very strings
+   the code gets.  tp_print_* is the generator's printer in Gallina; the parser reads back what it writes: *)
+Theorem C08_parse_print_spec : forall sp, tp_spec_wf sp -> tp_parse_spec (tp_print_spec sp) = Some sp.
+Proof. exact tp_parse_print_spec. Qed.
+Print Assumptions C08_parse_print_spec.
+
+(* day definitions: single specification, "first - last" in full or with the second part shortened to its number
+   ("day 1 - 15", "monday 1 - 3": short = true), optional " / stride" *)
+Theorem C08_parse_print_daydef : forall short dd,
+  tp_daydef_wf short dd -> tp_parse_daydef (tp_print_daydef short dd) = Some dd.
+Proof. exact tp_parse_print_daydef. Qed.
+Print Assumptions C08_parse_print_daydef.
+
+(* time ranges "HH:MM[:SS]-HH:MM[:SS],...", every time below 100:00:00 *)
+Theorem C08_parse_print_timeranges : forall l, l <> [] -> Forall tp_timerange_wf l ->
+  tp_parse_timeranges (tp_print_timeranges l) = Some (map snd l).
+Proof. exact tp_parse_print_timeranges. Qed.
+Print Assumptions C08_parse_print_timeranges.
 
 (* calendar arithmetic used by the model, for ALL day numbers / all valid dates (all of Z; the only
    computation is a sweep over one 400-year era, a finite domain, inside the proofs in Tp/TpCivil.v):
@@ -323,11 +508,12 @@ Example C08_nonvacuous_ranges :
   let t := b + 36000 in
   b <= t < b + 86400 /\ tp_ranges_bounded ranges /\
   (forall d, d < tp_local_day (fun _ => 0) b -> tp_day_covers (fun _ => 0) (fun l => l - 0) false ranges d t = false) /\
-  tp_inside_segs (tp_script_func (fun _ => 0) (fun l => l - 0) ranges b (b + 86400)) t = true.
+  tp_inside_segs (tp_script_func (fun _ => 0) (fun l => l - 0) false false ranges b (b + 86400)) t = true /\
+  tp_inside_segs (tp_script_func (fun _ => 0) (fun l => l - 0) true true ranges b (b + 86400)) t = true.
 Proof.
   cbv zeta. split; [vm_compute; split; [discriminate|reflexivity]|]. split.
   { intros kv tr [<-|[]] [<-|[]]. cbn [fst snd]. repeat split; apply Z.leb_le; reflexivity. }
-  split; [|vm_compute; reflexivity].
+  split; [|vm_compute; split; reflexivity].
   intros d Hd. unfold tp_day_covers. cbn [existsb fst snd]. rewrite !orb_false_r.
   apply andb_false_iff. right. unfold tp_in_time_range, tp_local. cbn [fst snd].
   change (tp_local_day (fun _ : Z => 0) (tp_days_from_civil 2033 6 6 * 86400)) with 23167 in Hd.
@@ -341,8 +527,28 @@ Example C08_nonvacuous_dst :
   let mk := tp_tab_mk tp_berlin_base tp_berlin_tab in
   let b := mk (tp_days_from_civil 2034 3 25 * 86400 + 43200) in
   let rg tb te := [({| tp_dr_first := TpWeekday 0 None None; tp_dr_last := None; tp_dr_stride := 1 |}, [(tb, te)])] in
-  tp_cal_hyps_ok tp_berlin_base tp_berlin_tab (rg 1800 14400) b (b + 172800) = true /\
-  tp_cal_hyps_ok tp_berlin_base tp_berlin_tab (rg 9000 14400) b (b + 172800) = false /\
-  tp_inside_segs (tp_script_func (tp_tab_off tp_berlin_base tp_berlin_tab) mk (rg 1800 14400) b (b + 172800))
+  tp_cal_hyps_ok false false tp_berlin_base tp_berlin_tab (rg 1800 14400) b (b + 172800) = true /\
+  tp_cal_hyps_ok true true tp_berlin_base tp_berlin_tab (rg 1800 14400) b (b + 172800) = true /\
+  tp_cal_hyps_ok false false tp_berlin_base tp_berlin_tab (rg 9000 14400) b (b + 172800) = false /\
+  tp_inside_segs (tp_script_func (tp_tab_off tp_berlin_base tp_berlin_tab) mk false false (rg 1800 14400) b (b + 172800))
+                 (mk (tp_days_from_civil 2034 3 26 * 86400 + 12600)) = true /\
+  tp_inside_segs (tp_script_func (tp_tab_off tp_berlin_base tp_berlin_tab) mk true true (rg 1800 14400) b (b + 172800))
                  (mk (tp_days_from_civil 2034 3 26 * 86400 + 12600)) = true.
 Proof. vm_compute. repeat split; reflexivity. Qed.
+
+(* the printer writes the generator's strings, and malformed strings are rejected where the code throws *)
+From Coq Require Import Strings.String.
+Example C08_parser_examples :
+  tp_print_daydef true {| tp_dr_first := TpMonthDay None 1; tp_dr_last := Some (TpMonthDay None 15); tp_dr_stride := 2 |}
+    = tp_bytes_of "day 1 - 15 / 2"%string /\
+  tp_parse_daydef (tp_bytes_of "monday 0"%string) = None /\
+  tp_parse_daydef (tp_bytes_of "monday / 2"%string) = None /\
+  tp_parse_daydef (tp_bytes_of "Monday"%string) = None /\
+  tp_parse_daydef (tp_bytes_of "monday  2"%string) = None /\
+  tp_parse_daydef (tp_bytes_of "2034-03-32"%string) = None /\
+  tp_parse_daydef (tp_bytes_of "monday 2 march extra"%string) = Some {| tp_dr_first := TpWeekday 1 (Some 2) (Some 2); tp_dr_last := None; tp_dr_stride := 1 |} /\
+  tp_parse_daydef (tp_bytes_of "day 4294967297"%string) = Some {| tp_dr_first := TpMonthDay None 1; tp_dr_last := None; tp_dr_stride := 1 |} /\
+  tp_parse_timeranges (tp_bytes_of "09:00 - 17:00"%string) = None /\
+  tp_parse_timeranges (tp_bytes_of "22:00-06:00,9:0:30-17:0"%string) = Some [(79200, 21600); (32430, 61200)].
+Proof. vm_compute. repeat split; reflexivity. Qed.
+
